@@ -476,7 +476,8 @@ impl WriteSource for pr::Stmt {
                 pr::VarDefKind::Into | pr::VarDefKind::Main => {
                     let val = var_def.value.as_ref().unwrap();
                     match &val.kind {
-                        pr::ExprKind::Pipeline(pipeline) => {
+                        // (a pipeline that carries an alias is written as one aliased expression)
+                        pr::ExprKind::Pipeline(pipeline) if val.alias.is_none() => {
                             for expr in &pipeline.exprs {
                                 r += &expr.write(opt.clone())?;
                                 r += "\n";
